@@ -124,7 +124,8 @@ theorem rep_corrupt {dc : DrawCfg} {rc : RenderCfg} {t : Term} {a : ATerm} (R : 
   exact
   { good := by unfold corruptFor; split <;> exact ⟨R.good.st, R.good.utf8, R.good.font, R.good.g0, R.good.so, R.good.irm, R.good.mal, R.good.rw⟩
     quiet := ⟨fun h => by unfold corruptFor; rw [if_pos h]; exact R.quiet.link h,
-              fun h => by unfold corruptFor; split <;> exact R.quiet.vis h⟩
+              fun h => by unfold corruptFor; split <;> exact R.quiet.vis h,
+              fun h => by unfold corruptFor; split <;> exact R.quiet.ff h⟩
     w := by rw [hw]; exact R.w, h := by rw [hh]; exact R.h
     cells := fun _ _ _ _ => trivial
     conts := fun _ _ _ => Or.inr rfl
@@ -139,7 +140,7 @@ theorem rep_corrupt {dc : DrawCfg} {rc : RenderCfg} {t : Term} {a : ATerm} (R : 
 theorem rep_resize {dc : DrawCfg} {rc : RenderCfg} {t : Term} {a : ATerm} (R : Rep dc rc t a) (w h : Int) (hw : 0 ≤ w) (hh : 0 ≤ h) :
     Rep dc rc (t.resize w.toNat h.toNat) (a.resized w h) :=
   { good := ⟨R.good.st, R.good.utf8, R.good.font, R.good.g0, R.good.so, R.good.irm, R.good.mal, R.good.rw⟩
-    quiet := ⟨R.quiet.link, R.quiet.vis⟩
+    quiet := ⟨R.quiet.link, R.quiet.vis, R.quiet.ff⟩
     w := by show ((w.toNat : Nat) : Int) = w; omega
     h := by show ((h.toNat : Nat) : Int) = h; omega
     cells := fun _ _ _ _ => trivial
